@@ -140,10 +140,14 @@ pub fn take_until_and_not<'a>(
                     i,
                     ErrorKind::TakeUntil,
                 ))),
-                (Some(offset), None) => {
+                // only a `however_tag` at the very place of the `end_tag` keeps the scan going;
+                // one that follows later (e.g. in another string literal) has nothing to do with it
+                (Some(end), Some(however)) if however <= end => {
+                    recursive_until(i, index + however + t2.len(), t1, t2)
+                }
+                (Some(offset), _) => {
                     Ok(i.take_split(index + offset)).map(|(rem, res)| (rem, res.into_inner()))
                 }
-                (Some(_), Some(offset)) => recursive_until(i, index + offset + 2, t1, t2),
             }
         }
         let res: ParserResult<'_, _> = recursive_until(i, 0, end_tag, however_tag);
